@@ -77,10 +77,50 @@ Fixpoint get_header (vs : list fval) : option header :=
   | VHeader h :: _ => Some h
   | _ :: r => get_header r
   end.
+(* getHeader as the code has it, through reflect (pdu/header_kit.go):
+     p := reflect.ValueOf(packet); if p.Kind() == reflect.Ptr { p = p.Elem() }
+     for i := 0; i < p.NumField(); i++ { field := p.Field(i)
+       if h, ok := field.Addr().Interface() as pointer to Header; ok { return h } }
+     return nil
+   What reflect sees of the argument decides whether this returns: NumField
+   panics on anything that is not a struct (the zero Value of a nil interface
+   or of a nil pointer's Elem, a scalar, a map, a pointer to a pointer); Addr
+   panics on a field of a struct passed by value (not addressable); Interface
+   panics on an unexported field. *)
+Inductive fkind := KHeader | KExported | KUnexported.
+Inductive shape :=
+| ShPtrStruct (fs : list fkind)      (* a non-nil pointer to a struct with these fields *)
+| ShNilPtr                           (* a typed nil pointer *)
+| ShStruct (fs : list fkind)         (* a struct passed by value *)
+| ShOther.                           (* nil interface, scalar, string, map, pointer to a non-struct *)
+Definition kind_of (n : N) : fkind := if n =? 0 then KHeader else if n =? 1 then KExported else KUnexported.
+(* the loop over an addressable struct: is a Header found? *)
+Fixpoint scan_fields (fs : list fkind) : outcome bool :=
+  match fs with
+  | [] => Ok false
+  | KHeader :: _ => Ok true
+  | KExported :: r => scan_fields r
+  | KUnexported :: _ => Panic
+  end.
+Definition get_header_reflect (s : shape) : outcome bool :=
+  match s with
+  | ShPtrStruct fs => scan_fields fs
+  | ShNilPtr => Panic
+  | ShStruct [] => Ok false
+  | ShStruct (_ :: _) => Panic
+  | ShOther => Panic
+  end.
+
 Definition read_sequence (vs : list fval) : outcome Z :=
   match get_header vs with Some h => Ok (h_seq h) | None => Ok 0%Z end.
 Definition read_status (vs : list fval) : outcome N :=
   match get_header vs with Some h => Ok (h_status h) | None => Ok 0 end.
+
+(* ReadSequence / ReadCommandStatus on a packet of shape [s] whose decoded fields are [vs] *)
+Definition read_sequence_go (s : shape) (vs : list fval) : outcome Z :=
+  do found <- get_header_reflect s; if found then read_sequence vs else Ok 0%Z.
+Definition read_status_go (s : shape) (vs : list fval) : outcome N :=
+  do found <- get_header_reflect s; if found then read_status vs else Ok 0.
 
 (* Resp(): which response type a request type builds and whether it copies
    the sequence number is data ([pairs], regenerated from the running code:
@@ -104,6 +144,7 @@ Inductive fobs :=
 | FoAddr (s : bytes)                               (* Address.String() *)
 | FoU8 (state : bytes)                             (* MessageState(b).String() of the octet *)
 | FoShort (c : option concat) (hexed : option bytes)  (* ConcatenatedHeader(); Parse() text when data_coding has no decoder *)
+| FoShortOpen (hexed : option bytes)               (* observation only: the UDH holds both elements or an over-long one — which header is read is left open *)
 | FoAddrs (l : list bytes).                        (* String() of each address in a list field *)
 
 Record acc_obs := { o_seq : Z; o_status : N; o_resp : option (N * Z); o_fields : list fobs }.
@@ -152,13 +193,22 @@ Definition dsm_of (id : N) (vs : list fval) : option dsm :=
 (* ------------------------------------------------------------ comparisons *)
 Definition beq_concat (a b : concat) : bool :=
   (c_ref a =? c_ref b) && (c_total a =? c_total b) && (c_seq a =? c_seq b).
+(* C11 demands that the operations return, not what they print: texts
+   (state names, the '+' rule, hex case) are compared by presence only; the
+   concatenation header (a value the combiner acts on) is compared exactly,
+   except where the property leaves open which element is read *)
+Definition same_some {A B} (x : option A) (y : option B) : bool :=
+  match x, y with Some _, Some _ => true | None, None => true | _, _ => false end.
 Definition beq_fobs (a b : fobs) : bool :=
   match a, b with
   | FoNone, FoNone => true
-  | FoAddr x, FoAddr y => beq_bytes x y
-  | FoU8 x, FoU8 y => beq_bytes x y
-  | FoShort c x, FoShort d y => beq_opt beq_concat c d && beq_opt beq_bytes x y
-  | FoAddrs x, FoAddrs y => beq_list beq_bytes x y
+  | FoAddr _, FoAddr _ => true
+  | FoU8 _, FoU8 _ => true
+  | FoShort c x, FoShort d y => beq_opt beq_concat c d && same_some x y
+  | FoShort _ x, FoShortOpen y => same_some x y
+  | FoShortOpen x, FoShort _ y => same_some x y
+  | FoShortOpen x, FoShortOpen y => same_some x y
+  | FoAddrs x, FoAddrs y => (List.length x =? List.length y)%nat
   | _, _ => false
   end.
 Definition beq_resp (a b : option (N * Z)) : bool :=
@@ -173,6 +223,8 @@ Definition beq_oacc (a b : outcome acc_obs) : bool :=
   | Panic, Panic => true
   | _, _ => false
   end.
+(* outcome class: 0 returned a value, 1 returned an error, 2 panicked *)
+Definition ocls {A} (o : outcome A) : N := match o with Ok _ => 0 | Err _ => 1 | Panic => 2 end.
 Definition beq_oconcat (a b : outcome (option concat)) : bool :=
   match a, b with
   | Ok x, Ok y => beq_opt beq_concat x y
